@@ -87,6 +87,10 @@ class Ctx:
     def func(self, qual):
         return self.prog.func(qual)
 
+    def fold(self, expr, module):
+        """Constant value of an expression (literals, module constants, arithmetic); raises ValueError."""
+        return Interp(self.prog, Opts()).fold(expr, module)
+
     def method(self, cls, name):
         return self.prog.method(cls, name)
 
